@@ -165,6 +165,12 @@ pub fn history_body(plan: &Plan, out: Arc<Mutex<Option<HistoryOutcome>>>) {
     if env.open() {
         for (i, op) in plan.ops.iter().enumerate() {
             let ctx = format!("op#{i} {}", op_name(op));
+            if std::env::var_os("LSIM_TRACE_KEYS").is_some() {
+                // diagnostic for determinism triage: how many std RandomStates this OS thread has
+                // created so far (each advances the per-thread hash key by one)
+                let (k0, _k1): (u64, u64) = unsafe { std::mem::transmute(std::collections::hash_map::RandomState::new()) };
+                eprintln!("[keys] before {ctx}: k0={k0}");
+            }
             match op {
                 Op::Ingest(req) => {
                     env.ingest(req);
